@@ -41,10 +41,16 @@ KTAB = {
     "Idcl": lambda v: ("dc_current_source", {"I": -1, "G": F(1, v)}),
     "Vach": lambda v: ("ac_voltage_source", {"V": 3, "w": 2000, "phi": "a43"}),
     "Iach": lambda v: ("ac_current_source", {"I": 2, "w": 2000, "phi": "pi", "G": F(1, v)}),
+    # bench values in SI units: kilo-ohms, nanofarads, millihenries, a megahertz-range source
+    "Rk": lambda v: ("resistor", {"R": 4700 + v}),
+    "Cn": lambda v: ("capacitor", {"C": F(v, 10 ** 8)}),
+    "Lm": lambda v: ("inductance", {"L": F(v, 1000)}),
+    "Vhf": lambda v: ("ac_voltage_source", {"V": 5, "w": 1000000, "phi": "a34", "R": 50}),
     "Vc": lambda v: ("complex_voltage_source", {"V": [1, v], "Z": [0, 0]}),
     "Ic": lambda v: ("complex_current_source", {"I": [v, -1], "Y": [F(1, v), 0]}),
 }
 K12 = ("R", "C", "L", "Z", "G", "lamp", "Vdc", "Vac", "Vacl", "Iac", "Idcl", "Vach")
+KPHYS = ("Rk", "Cn", "Lm", "Vhf", "Idc", "R")
 K_ALL = tuple(KTAB)
 K5 = ("R", "C", "L", "Vac", "Idc")
 K4 = ("R", "C", "Vach", "Iac")
@@ -55,11 +61,11 @@ def budget_s(tier):
     return 400 if tier == "quick" else 7200
 
 
-LEVELS_QUICK = [(2, 1, K_ALL), (2, 2, K_ALL), (3, 2, K_ALL), (2, 3, K12), (3, 3, K12), (3, 4, K4)]
-LEVELS_THOROUGH = [(2, 1, K_ALL), (2, 2, K_ALL), (3, 2, K_ALL), (2, 3, K_ALL), (3, 3, K_ALL), (3, 4, K5 + ("Vacl", "G")), (4, 3, K12), (4, 4, K5)]
+LEVELS_QUICK = [(2, 1, K_ALL), (2, 2, K_ALL), (3, 2, K_ALL), (2, 3, K12), (3, 3, K12), (3, 4, K4), (2, 3, KPHYS), (3, 3, KPHYS)]
+LEVELS_THOROUGH = [(2, 1, K_ALL), (2, 2, K_ALL), (3, 2, K_ALL), (2, 3, K_ALL), (3, 3, K_ALL), (3, 4, K5 + ("Vacl", "G")), (4, 3, K12), (4, 4, K5), (3, 4, KPHYS)]
 
 
-SRC_W = {"Vdc": 0, "Vdcl": 0, "Idc": 0, "Idcl": 0, "Vac": 1, "Iac": 1, "Vacl": 2, "Iacl": 2, "Vach": 2000, "Iach": 2000}
+SRC_W = {"Vhf": 1000000, "Vdc": 0, "Vdcl": 0, "Idc": 0, "Idcl": 0, "Vac": 1, "Iac": 1, "Vacl": 2, "Iacl": 2, "Vach": 2000, "Iach": 2000}
 
 
 def freq_alphabet(kt=None):
@@ -196,9 +202,17 @@ def judge(d, ws, res):
     for w in ws:
         case = {"circuit": d, "ws": [str(w)]}
         nl = rc.netlist(d, w, RES_DEFAULT)
+        if cm.tableau_condition(nl) > 1e8:
+            # exactly well-posed but numerically not: e.g. a current source charging a nanofarad at w = 5e-4 rad/s (1e10 volts);
+            # binary64 cannot determine such a solution to any agreed precision, so it is not judged
+            bump(res["skipped"], "ill_conditioned_at_w(cond>1e8)")
+            continue
         phi_ref, cur_ref = cm.float_tableau_solution(nl)
         s_phi, s_i = cm.scales(nl, phi_ref, cur_ref)
-        rtol = 1e-9 if w < 100 else 1e-6   # decades rule: at w >= 100 the immittances span > 6 decades
+        zs = [abs(complex(z)) for z in (rn.immittance(b)[0] for b in nl["branches"]) if z is not None and z]
+        # decades rule (DESIGN 2.2): 1e-9 on the benign palette, 1e-6 when the immittances at this frequency span more than
+        # six decades (w >= 100 on the prime palette, or the physical-unit kinds), where the MNA matrix is conditioned ~1e7..1e10
+        rtol = 1e-9 if (w < 100 and (not zs or max(zs) / min(zs) < 1e6)) else 1e-6
         tol_v, tol_i = rtol * s_phi, rtol * s_i
         res["states"] += 1
         res["transitions"] += 1
